@@ -220,6 +220,8 @@ def body(ctx):
         for key, what, detail in fs:
             ctx.violation(key, what, detail)
     ctx.require(nob[0] >= 150, "only %d IR wrappers analysed" % nob[0])
+    nblocks = sum(len(ch) for ch in chunks)
+    ctx.require(notperm[0] * 2 <= max(2, nblocks), "%d of %d mixed duration / quantity blocks do not compile (the implicit policy refuses some period / rep pairs, not half of them)" % (notperm[0], nblocks))
     ctx.log("I: %d wrappers, %d equal, %d blocks not permitted by the implicit policy" % (nob[0], nob[1], notperm[0]))
     ctx.coverage.update(dict(
         evaluations=len(items) * len(configs) + nob[0], distinct_nontrivial=len(items) + nob[0],
